@@ -242,3 +242,34 @@ def analyse_partial_unwrap(mir_text):
     if "(error" in p.stdout or res not in ("sat", "unsat"):
         res = "error"
     return {"res": res, "sites": len(sites), "bad": [s_ for s_ in sites if s_["partial"]], "dt": time.time() - t0}
+
+
+# E3t (part of C04): the value that is being stored is a root of the collection its own allocation triggers.
+# `Heap::value_collection`, `vector_collection` and `allocate_vector_iter` run a full collection BEFORE the new slot holds
+# the value(s); at that moment the value lives only in the primitive's argument.  Fact on the MIR: in each of these
+# functions some argument of the call `Heap::mark_and_sweep_new` derives from the parameter that carries the value(s)
+# to be stored (the second parameter).
+def analyse_alloc_roots(mir_text):
+    funcs = mir.parse(mir_text, lambda n: "closed::" in n)
+    out = []
+    for key, f in funcs.items():
+        for b in f.blocks.values():
+            t = b.term
+            if b.cleanup or t.get("kind") != "call" or not MARK.search(t["callee"].strip()):
+                continue
+            params = list(f.argtypes)
+            if len(params) < 2:
+                continue
+            stored = params[1]
+            derives = [i for i, a in enumerate(t["args"]) if i > 0 and re.search(r"(?<![\w.])%s\b" % re.escape(stored), mir.origin(f, a))]
+            out.append({"function": f.name.split("::")[-1], "stored_param": "%s: %s" % (stored, f.argtypes[stored].strip()[:50]), "marking_args_from_it": derives})
+    tbl = "(_ bv1 8)"
+    for i, s_ in enumerate(out):
+        tbl = "(ite (= c (_ bv%d 8)) (_ bv%d 8) %s)" % (i, 1 if s_["marking_args_from_it"] else 0, tbl)
+    q = "(set-logic QF_BV)\n(declare-const c (_ BitVec 8))\n(assert (bvult c (_ bv%d 8)))\n(assert (= %s (_ bv0 8)))\n(check-sat)\n" % (max(1, len(out)), tbl)
+    t0 = time.time()
+    p = subprocess.run(["z3", "-in", "-T:30"], input=q, capture_output=True, text=True)
+    res = p.stdout.strip().split("\n")[0] if p.stdout.strip() else "error"
+    if "(error" in p.stdout or res not in ("sat", "unsat"):
+        res = "error"
+    return {"res": res, "sites": out, "bad": [s_ for s_ in out if not s_["marking_args_from_it"]], "dt": time.time() - t0}
